@@ -14,7 +14,10 @@ Deductive part:
                       hands exactly its xm to the next cycle as x0, and the function returns the last cycle's (xm, res);
   core.arnoldi        (index level, all N, m, j) loop invariants of the modified Gram-Schmidt Arnoldi loop: the Arnoldi relation
                       A v_j = sum_{i <= j+1} v_i h_ij for every column, H upper Hessenberg, frames of V and H;
-Orthonormality of the basis, minimality of the residual over the Krylov space, monotone history, convergence within n cycles, independence of
+  core.least_squares  (free quaternion *-algebra, component quadruples as handles; all N, all cycle lengths, Arnoldi loop replaced by an
+                      arbitrary V, H, v; Hess_QR_ggivens / UtriangleQsparse by their C16 contracts) the y used in a cycle satisfies the
+                      normal equations H^H (Vm^H r0 - H y) = 0 and no other z has a smaller ||Vm^H r0 - H z|| (difference = ||H(y - z)||^2);
+Orthonormality of the basis (which turns the small problem's minimality into minimality over the Krylov space), monotone history, convergence within n cycles, independence of
 scaling and of preconditioning are decided by the bounded stand-in on the real code (n <= 6 (8); 9 matrix classes x
 right-hand sides incl. eigenvectors and 0 x tolerances x caps 0..n x {none, left_lu} x dense/sparse x scalings 1e-6..1e6)."""
 from __future__ import annotations
@@ -134,6 +137,7 @@ def deductive(rep: Report, tier):
         run_case(rep, P, G + "solve", f"guard_square.{prec}", setup_g, post_g, lib=lib, contracts=contracts, clauses=["raises_ValueError", "nothing_called_before"])
     solve_left_lu(rep)
     core_bookkeeping(rep)
+    least_squares_glue(rep)
     arnoldi_relation(rep)
     # canary: a residual formed against a different right-hand side is not accepted
     a, b, c = z3.Reals("a b c")
@@ -453,6 +457,285 @@ def core_bookkeeping(rep: Report):
         lib = tm.install(Library("idx"))
         run_case(rep, P, QN, f"bookkeeping.cap_{cap}", setup, post, lib=lib, contracts=contracts,
                  loop_rules={(QN, 0): Restart(), (QN, 1): Arnoldi()}, clauses=cl, replay=replay_solve, timeout_s=30, max_paths=800)
+
+
+# ----------------------------------------------------------------------------------------------------
+# the small least-squares problem of one cycle: the y that is used minimises ||bm - H y||   (all N, all cycle lengths)
+def least_squares_glue(rep: Report):
+    """One generic restart cycle of _GMRESQsparse in the free quaternion *-algebra, component quadruples as handles (QComp):
+       the Arnoldi loop is replaced by an arbitrary basis V, Hessenberg matrix H and new vector v (its own relation is
+       arnoldi_relation); everything after it is the real code:
+           bm = Vm^H r0,   (U, R) = Hess_QR_ggivens(H)  [contract C16:  U unitary,  U R = H,  R = [Rt; 0] with Rt m x m upper triangular,
+           here: invertible - the zero-diagonal fault path is UtriangleQsparse's own obligation in C16],
+           bm2 = U^H bm (zero-padded when the basis is already square),  y = UtriangleQsparse(R[:m, :m], bm2[:m])  [contract C16: Rt y = rhs].
+       Obligations emitted where the triangular solve is called:
+           ls.normal_equations      H^H (bm - H y) = 0
+           ls.optimal               ||bm - H z||^2 - ||bm - H y||^2 = ||H (y - z)||^2   for an arbitrary z  (so no z does better)
+       both as identities of normal forms (definitional rewrite  H -> U E1 Rt,  E1 = [I_m; 0],  inverse pair Rt / Rt^-1)."""
+    from ..interp import LoopRule
+    from ..nc import Atom
+    from ..values import fresh_hmat
+    UQ = "quatica/utils.py::"
+    QN = G + "_GMRESQsparse"
+
+    class QComp:
+        """component c of the quaternion matrix `mat`; tr: transposed, sgn: sign.  (X0.T, -X1.T, -X2.T, -X3.T) is X^H in component form."""
+        qv_value = True
+
+        def __init__(self, mat, c, tr=False, sgn=1):
+            self.mat, self.c, self.tr, self.sgn = mat, c, tr, sgn
+            r, k = mat.shape
+            self.shape = (k, r) if tr else (r, k)
+
+        def has_attr(self, name):
+            return name in ("shape", "T", "flatten", "copy")
+
+        @property
+        def T(self):
+            return QComp(self.mat, self.c, not self.tr, self.sgn)
+
+        def __neg__(self):
+            return QComp(self.mat, self.c, self.tr, -self.sgn)
+
+        def flatten(self):
+            return self
+
+        def copy(self):
+            return QComp(self.mat, self.c, self.tr, self.sgn)
+
+        def _bin(self, o, sign):
+            if isinstance(o, Zero):
+                return self
+            if not (isinstance(o, QComp) and o.c == self.c and not self.tr and not o.tr and self.sgn == 1 and o.sgn == 1):
+                raise OutOfReach("sum of unrelated component handles")
+            return QComp(HMat(self.mat.p + o.mat.p if sign > 0 else self.mat.p - o.mat.p), self.c)
+
+        def __add__(self, o):
+            return self._bin(o, 1)
+
+        def __radd__(self, o):
+            if isinstance(o, Zero):
+                return self
+            return NotImplemented
+
+        def __sub__(self, o):
+            return self._bin(o, -1)
+
+        def __truediv__(self, s):
+            if self.tr or self.sgn != 1:
+                raise OutOfReach("scaling of a transposed handle")
+            if getattr(s, "np_float64", False):      # numpy: division by a float64 norm never raises (A1: inf / nan not modelled)
+                return QComp(HMat(self.mat.p.scale(SReal.mk(1 / SReal.lift(s)))), self.c)
+            return QComp(HMat(self.mat.p / s), self.c)
+
+        def getitem(self, idx):
+            """the two slices the code takes:  R[:m, :m] of the triangular factor and  c[:m] of an (m+1)-vector"""
+            g = cur().ghost.get("ls")
+            if g is None or self.tr or self.sgn != 1:
+                raise OutOfReach("slice of a component handle")
+            t = idx if isinstance(idx, tuple) else (idx,)
+            ok = all(isinstance(s_, slice) and s_.start is None and s_.step is None and s_.stop is not None for s_ in t)
+            if not ok or cur().valid(sand(*[SBool.mk(SInt.lift(s_.stop) == SInt.lift(g["m"])) for s_ in t])) is not True:
+                raise OutOfReach("slice other than [:m]")
+            if len(t) == 2 and ncm.nc_syntactically_equal(self.mat.p, g["R"].p):
+                return QComp(g["Rt"], self.c)
+            if len(t) == 1 and cur().valid(sand(SBool.mk(SInt.lift(self.mat.shape[0]) == SInt.lift(g["m"]) + 1), SBool.mk(SInt.lift(self.mat.shape[1]) == 1))) is True:
+                return QComp(HMat(g["E1"].p.star @ self.mat.p), self.c)
+            raise OutOfReach("slice of a component handle that is neither R[:m, :m] nor c[:m]")
+
+    class Zero:
+        """np.zeros(...) work array: whatever is written into it before the Arnoldi loop is overwritten by the loop rule's arbitrary state"""
+        qv_value = True
+
+        def __init__(self, shape):
+            self.shape = tuple(shape)
+
+        def has_attr(self, name):
+            return name in ("shape", "copy", "flatten")
+
+        def copy(self):
+            return Zero(self.shape)
+
+        def flatten(self):
+            return self
+
+        def setitem(self, idx, val):
+            cur().ghost["zero_written"] = True
+            self.dirty = True
+
+    def quad(q):
+        """the quaternion matrix (NC polynomial) denoted by a component quadruple"""
+        if all(isinstance(x, Zero) and not getattr(x, "dirty", False) for x in q):
+            return NC.zero(q[0].shape[0], q[0].shape[1])
+        if not all(isinstance(x, QComp) and x.c == i for i, x in enumerate(q)):
+            raise OutOfReach("quadruple of unrelated component handles")
+        m0 = q[0].mat.p
+        if not all(ncm.nc_syntactically_equal(x.mat.p, m0) for x in q[1:]):
+            raise OutOfReach("components of different matrices in one quadruple")
+        if all(not x.tr and x.sgn == 1 for x in q):
+            return m0
+        if all(x.tr for x in q) and q[0].sgn == 1 and all(x.sgn == -1 for x in q[1:]):
+            return m0.star
+        if len({x.tr for x in q}) == 1:
+            # some other sign pattern (e.g. the plain transpose X^T, which is no anti-automorphism of quaternion matrices): a matrix of that
+            # shape about which nothing is known
+            r, k = q[0].shape
+            return fresh_hmat(cur().fresh_name("signed_variant"), r, k).p
+        raise OutOfReach("component quadruple with mixed transposition")
+
+    def comps(p):
+        Hm = HMat(p)
+        return tuple(QComp(Hm, i) for i in range(4))
+
+    def k_times(I, args, kwargs):
+        B, C = quad(args[0:4]), quad(args[4:8])
+        ncm.dims_equal(B.cols, C.rows, "conformable.timesQsparse")
+        wB = B.t
+        if len(wB) == 1:
+            (word, coef), = wB.items()
+            if len(word) == 1 and word[0][1] and word[0][0].split("!")[0] in ("V", "Vm") and isinstance(coef, Fraction) and coef == 1:
+                # Vm^H r: the coordinates of a vector in the cycle's basis - for r = r0 the right-hand side (beta e1) of the small problem
+                cur().ghost["ls_bm"] = HMat(B @ C)
+        return comps(B @ C)
+
+    def k_norm(I, args, kwargs):
+        from ..term import NPFloat
+        return NPFloat(ssqrt(ncm.fro2(quad(args[0:4]))).z)      # a numpy float: dividing by it never raises
+
+    def np_column_stack(parts):
+        Vc, vc = parts
+        if not (isinstance(Vc, QComp) and isinstance(vc, QComp) and Vc.c == vc.c):
+            raise OutOfReach("column_stack form")
+        memo = cur().ghost.setdefault("colstack", {})
+        key = (id(Vc.mat), id(vc.mat))
+        if key not in memo:
+            memo[key] = fresh_hmat(cur().fresh_name("Vm"), Vc.shape[0], Vc.shape[1] + vc.shape[1])
+        return QComp(memo[key], Vc.c)
+
+    class Stack4:
+        qv_value = True
+
+        def __init__(self, mat):
+            self.mat = mat
+            self.shape = (4 * mat.shape[0], mat.shape[1])
+
+    def np_vstack(parts):
+        parts = list(parts)
+        if len(parts) == 4 and all(isinstance(x, QComp) for x in parts):
+            return Stack4(HMat(quad(parts)))
+        if len(parts) == 2 and isinstance(parts[0], QComp) and isinstance(parts[1], Zero):
+            # [c; 0] with one zero row appended = E1' c with E1' = [I; 0]: only the case rows(c) = m, one row appended, is used
+            g = cur().ghost.get("ls")
+            c_, z = parts
+            if g is not None and cur().valid(sand(SBool.mk(SInt.lift(z.shape[0]) == 1), SBool.mk(SInt.lift(c_.shape[0]) == SInt.lift(g["m"])), SBool.mk(SInt.lift(c_.shape[1]) == 1))) is True:
+                return QComp(HMat(g["E1"].p @ c_.mat.p), c_.c)
+        raise OutOfReach("np.vstack form")
+
+    def k_hess(I, args, kwargs):
+        (Hs,) = args
+        if not isinstance(Hs, Stack4):
+            raise OutOfReach("Hess_QR_ggivens on something that is not the stacked Hessenberg matrix")
+        w = Hs.mat.p.t
+        if len(w) != 1 or len(next(iter(w))) != 1:
+            raise OutOfReach("Hessenberg matrix is not an atom")
+        (word, _), = w.items()
+        m1, m = Hs.mat.shape
+        Ua = Atom("Uq", m1, m1, "orth", alg="H")
+        E1 = Atom("E1", m1, m, "orthcols", alg="H")
+        Rti = Atom("Rtinv", m, m, "gen", alg="H")
+        Rt = Atom("Rt", m, m, "gen", inv_of="Rtinv", alg="H")
+        ncm.add_rewrite(tuple(word), (("Uq", False), ("E1", False), ("Rt", False)))
+        g = cur().ghost["ls"] = dict(H=Hs.mat, U=HMat(NC.atom(Ua)), E1=HMat(NC.atom(E1)), Rt=HMat(NC.atom(Rt)), Rtinv=HMat(NC.atom(Rti)), m=m,
+                                     R=HMat(NC.atom(E1) @ NC.atom(Rt)), Hword=word)
+        return ("hessU", g["U"]), ("hessR", g["R"])
+
+    def k_a2a(I, args, kwargs):
+        (t,) = args
+        if isinstance(t, tuple) and len(t) == 2 and t[0] in ("hessU", "hessR"):
+            return tuple(QComp(t[1], i) for i in range(4))
+        raise OutOfReach("A2A0123 on an unknown block matrix")
+
+    def k_utri(I, args, kwargs):
+        c = cur()
+        g = c.ghost.get("ls")
+        Rm, rhs = quad(args[0:4]), quad(args[4:8])
+        if g is None or not ncm.nc_syntactically_equal(Rm, g["Rt"].p):
+            raise OutOfReach("triangular solve with a matrix that is not the leading block of the QR factor")
+        y = g["Rtinv"].p @ rhs
+        Hm = NC.atom(ncm.ATOMS[g["Hword"][0][0]])
+        bm = c.ghost.get("ls_bm")
+        res = c.ghost.setdefault("ls_results", [])
+        names = ("normal_equations_HH_times_bm_minus_Hy_is_zero", "no_other_z_gives_a_smaller_residual")
+        m_ = g["m"]
+        if bm is not None and c.valid(SBool.mk(SInt.lift(bm.shape[0]) == SInt.lift(m_))) is True:
+            bm = HMat(g["E1"].p @ bm.p)            # the basis is already square (m = N): [bm; 0]
+        if bm is None or c.valid(SBool.mk(SInt.lift(bm.shape[0]) == SInt.lift(m_) + 1)) is not True:
+            for nm in names:    # the small problem's right-hand side Vm^H r0 was not recognised: nothing is decided here (never a refutation)
+                res.append((nm, smt.UNDECIDED, "", 0.0, "the product Vm^H r0 that defines the small least-squares problem was not found before the triangular solve"))
+        else:
+            hy = c.hyps()
+            st, be, secs, wit = ncm.nc_equal_obligation(Hm.star @ (bm.p - Hm @ y), NC.zero(Hm.cols, 1), hy)
+            res.append((names[0], st, be, secs, wit or None))
+            z = fresh_hmat(c.fresh_name("zany"), Hm.cols, 1).p
+            lhs = ncm.fro2(bm.p - Hm @ z) - ncm.fro2(bm.p - Hm @ y)
+            rhs_ = ncm.fro2(Hm @ (y - z))
+            v = smt.prove(hy, SReal.lift(lhs) == SReal.lift(rhs_), 20)
+            res.append((names[1], v.status, "normal-form+" + v.backend, v.secs, None if v.status == smt.PROVED else {"model": v.model}))
+        c.ghost["ls_checked"] = c.ghost.get("ls_checked", 0) + 1
+        return comps(y)
+
+    class Arnoldi(LoopRule):
+        skip_body = True
+        modifies = ("V0", "V1", "V2", "V3", "H0", "H1", "H2", "H3", "v_0", "v_1", "v_2", "v_3", "breakdown", "m")
+
+        def havoc(self, it, fr, k):
+            c = cur()
+            N, m_old = fr.vars["N"], fr.vars["m"]
+            bd = SBool(z3.Bool(c.fresh_name("breakdown")))
+            mp = SInt.var(c.fresh_name("m_cycle"))
+            c.assume(sand(mp >= 1, mp <= m_old, sor(bd, mp == m_old)))
+            V, Hm, v = fresh_hmat(c.fresh_name("V"), N, mp), fresh_hmat(c.fresh_name("H"), mp + 1, mp), fresh_hmat(c.fresh_name("v"), N, 1)
+            for i in range(4):
+                fr.vars[f"V{i}"], fr.vars[f"H{i}"], fr.vars[f"v_{i}"] = QComp(V, i), QComp(Hm, i), QComp(v, i)
+            fr.vars["breakdown"] = bd
+            fr.vars["m"] = mp
+
+    class Cycle(LoopRule):
+        """invariant 'True': a cycle starts from an arbitrary restart iterate x0 (what the cycles hand to each other is core_bookkeeping's business)"""
+        modifies = ("x0_0", "x0_1", "x0_2", "x0_3", "xm_0", "xm_1", "xm_2", "xm_3", "res", "resv", "iter")
+
+        def havoc(self, it, fr, k):
+            c = cur()
+            X0 = fresh_hmat(c.fresh_name("x0"), fr.vars["N"], 1)
+            Xm = fresh_hmat(c.fresh_name("xm"), fr.vars["N"], 1)
+            for i in range(4):
+                fr.vars[f"x0_{i}"], fr.vars[f"xm_{i}"] = QComp(X0, i), QComp(Xm, i)
+            fr.vars["res"] = SReal.var(c.fresh_name("res"))
+            fr.vars["iter"] = SInt.var(c.fresh_name("iter"))
+            L = SInt.var(c.fresh_name("len"))
+            c.assume(L >= 0)
+            fr.vars["resv"] = SymList(L, "resv")
+
+    lib = Library("nc")
+    lib.qmode = "H"
+    lib.alloc_hooks.append(lambda what, shape, dtype: Zero(shape if isinstance(shape, tuple) else (shape,)) if what in ("zeros", "empty") else None)
+    lib.np.table["column_stack"] = np_column_stack
+    lib.np.table["vstack"] = np_vstack
+    contracts = {UQ + "normQsparse": k_norm, UQ + "timesQsparse": k_times, UQ + "Hess_QR_ggivens": k_hess, UQ + "A2A0123": k_a2a, UQ + "UtriangleQsparse": k_utri}
+
+    def setup(I, ctx):
+        (n,) = dims(ctx, "n")
+        A, b = fresh_hmat("A", n, n), fresh_hmat("b", n, 1)
+        tol, K = SReal.var("tol"), SInt.var("maxit")
+        slf = mk_self(I, "QGMRESSolver", tol=tol, max_iter=None, verbose=False, preconditioner="none")
+        return [slf] + [QComp(A, i) for i in range(4)] + [QComp(b, i) for i in range(4)] + [tol, K], {}, None
+
+    def post(I, ctx, outcome, val, aux):
+        if not ctx.ghost.get("ls"):
+            return []          # paths that never enter a cycle (b = 0, empty loop)
+        return [("a_cycle_reaches_the_triangular_solve", ctx.ghost.get("ls_checked", 0) >= 1)] + list(ctx.ghost.get("ls_results", []))
+    run_case(rep, P, QN, "least_squares", setup, post, lib=lib, contracts=contracts, loop_rules={(QN, 0): Cycle(), (QN, 1): Arnoldi()},
+             clauses=["a_cycle_reaches_the_triangular_solve", "normal_equations_HH_times_bm_minus_Hy_is_zero", "no_other_z_gives_a_smaller_residual"], replay=replay_solve, timeout_s=30, max_paths=400, loop_end=True)
 
 
 # ----------------------------------------------------------------------------------------------------
